@@ -4,7 +4,7 @@
    the yardstick for a setmap row is [count]: the number of lines of MEMBER files
    whose platform set is the row's key. *)
 From Coq Require Import Bool Arith ZArith String List.
-From CBI Require Import Lib.Res Model.C01 Spec.C01 Model.C04 Spec.C04 Model.C08 Spec.C08 Proofs.C08 Model.C10 Proofs.C10.
+From CBI Require Import Lib.Res Model.C01 Spec.C01 Model.C04 Spec.C04 Gen.C08_tables Model.C08 Spec.C08 Proofs.C08 Model.C10 Proofs.C10.
 Import ListNotations.
 Local Open Scope string_scope.
 Local Open Scope list_scope.
@@ -75,6 +75,15 @@ Theorem C10_outside_root_never_counted :
     setmap_M names w (member_of root pats) am (filter (fun fl => is_prefix root (fst fl)) fs).
 Proof. intros. split; [intros f; apply member_under|apply outside_root]. Qed.
 Print Assumptions C10_outside_root_never_counted.
+
+(* The tie to the source: tools/gen/c08_tables.py reads from __main__._main and tree._tree how
+   args.excludes is combined with [codebase].exclude; both CLIs append the file's patterns
+   to the command line's. *)
+Theorem C10_excludes_from_source :
+  excludes_main = XThenToml /\ excludes_tree = excludes_main /\
+  forall xs ts, effective xs ts = xs ++ ts.
+Proof. repeat split; reflexivity. Qed.
+Print Assumptions C10_excludes_from_source.
 
 (* The effective pattern list is the -x patterns followed by the analysis file's:
    giving the patterns on the command line, in the file, or split in either order is
